@@ -42,7 +42,7 @@ try:
             print("DRILL: repo tests fail on the mutant:", fails[:6])
     os.makedirs(out, exist_ok=True)
     e2 = dict(env, VERIF_REPO=repo, VERIF_OUT=out)
-    r = subprocess.run(['/verif/check', a.prop, a.tier], env=e2, capture_output=True, text=True)
+    r = subprocess.run(['/verif/check', a.prop, a.tier], env=e2, capture_output=True, text=True, errors='replace')
     vio = [l for l in r.stdout.split('\n') if l.startswith('VIOLATION')]
     summ = [l for l in r.stdout.split('\n') if l.startswith('SUMMARY') or l.startswith('BUILD-FAILED') or l.startswith('INCONCLUSIVE')]
     sigs = sorted(set(l.split('sig=')[1].split(' ')[0] for l in vio if 'sig=' in l))
